@@ -296,7 +296,8 @@ def shards(tier, seed):
     return [{"seed": seed, "lo": i * n, "hi": (i + 1) * n} for i in range(16)]
 
 
-VALUES = ["v", "12", "yes", "x y", "a$b", "$zd", "a=b", "", "65536", "abc", "10kb", "host:80", "1.5"]
+VALUES = ["v", "12", "yes", "x y", "a$b", "$zd", "a=b", "", "65536", "abc", "10kb", "host:80", "1.5",
+          "$(ZD)/x", "$(ZCV_EMPTY)", "${zd}", "$$", "k=v=w"]
 
 
 def gen_overrides(rng, sm, text):
